@@ -85,10 +85,27 @@ def run(ck):
     pfiles = sys_common.record(ck, ck.pick(8, 24), ck.pick(8, 16), tag='page', mode='page', seedoff=900)
     pfiles += sys_common.record(ck, ck.pick(4, 12), ck.pick(4, 10), tag='pio', mode='io', seedoff=1300)
     sys_common.validate(ck, pfiles)
+    # an out-of-range outcome in these traces was PREDICTED by System.tla (the trace was accepted), so it is one of the modelled
+    # causes; SysTrace names the source (a DSP-side DMA cursor, e.g. a host write to the DMA registers between two slices that
+    # starts a wild transfer, or a vetoed access of the core with its position, address and program page) and the finding
+    # signature follows from that; anything else stays an unlisted cause
     for f in pfiles:
-        for n_, ln in enumerate(open(f), 1):
-            if '"out":"oob"' in ln:
-                seen.setdefault('oob:system', (f, n_))
+        oobs = [n_ for n_, ln in enumerate(open(f), 1) if '"out":"oob"' in ln]
+        if not oobs:
+            continue
+        r = vlib.run_tlc('SysTrace', 'Trace_Sys.cfg', '%s_oob_%s' % (ck.tag, os.path.basename(f)[:-7]), workers=1, timeout=3000,
+                         env={'TRACE': f}, jvm=['-Xss64m'])
+        causes = {int(m.group(1)): (m.group(2), int(m.group(3)), int(m.group(4)), int(m.group(5)))
+                  for m in re.finditer(r'<<"OOB_CAUSE",\s*(\d+),\s*"(\w+)",\s*(\d+),\s*(\d+),\s*(\d+)>>', r.out)}
+        for n_ in oobs:
+            src, pos, addr, prpage = causes.get(n_, ('?', 0, 0, 0))
+            if src == 'dma':
+                sig = 'oob:dma_cursor'
+            elif src == 'core' and pos <= 2:
+                sig = 'oob:fetch_prpage' if prpage else 'oob:fetch_past_end'
+            else:
+                sig = 'oob:system'
+            seen.setdefault(sig, (f, n_))
     # 3. fuzz runs under the sanitizers
     fz = []
     cmds = []
@@ -99,7 +116,7 @@ def run(ck):
             fz.append(f)
             cmds.append('%s --seed %d --n %d --mode %s --out %s 2>> %s.%s.%d.txt' %
                         (ck.bin('fuzz_rec', 'asan'), ck.seed * 211 + i, ck.pick(40, 400), mode, f, logs, mode, i))
-    ck.run_jobs(cmds, timeout=2400, env={'ASAN_OPTIONS': 'detect_leaks=0:abort_on_error=1', 'UBSAN_OPTIONS': 'print_stacktrace=0'})
+    ck.run_jobs(cmds, timeout=2400, env={'ASAN_OPTIONS': 'detect_leaks=0:abort_on_error=1:detect_stack_use_after_return=1', 'UBSAN_OPTIONS': 'print_stacktrace=0'})
     ck.validate_traces('MC_Fuzz', 'Trace_Fuzz.cfg', fz, timeout=900, sig_prefix='termination')
     for f in fz:
         for n_, ln in enumerate(open(f), 1):
@@ -111,13 +128,26 @@ def run(ck):
     reports = {}
     for fn in os.listdir(ck.work):
         if fn.startswith('san.') and fn.endswith('.txt'):
+            asan_kind = None       # an AddressSanitizer report is named by its kind and the first frame inside the repository
             for ln in open(os.path.join(ck.work, fn), errors='replace'):
                 m = re.search(r'(src|include)/([\w/\.]+):(\d+):\d+: runtime error: (.*)', ln)
                 if m:
                     kind = re.sub(r'\d+', 'N', m.group(4))[:60]
                     reports.setdefault('ub:%s:%s:%s' % (m.group(2), m.group(3), kind), fn)
-                elif 'ERROR: AddressSanitizer' in ln:
-                    reports.setdefault('asan:' + ln.strip()[:80], fn)
+                    continue
+                m = re.search(r'ERROR: AddressSanitizer: ([\w-]+)', ln)
+                if m:
+                    if asan_kind:
+                        reports.setdefault('asan:%s:?' % asan_kind, fn)
+                    asan_kind = m.group(1)
+                    continue
+                if asan_kind:
+                    m = re.search(r'^\s*#\d+ .*?/(src|include)/([\w/\.]+):(\d+)', ln)
+                    if m and '/usr/' not in ln:
+                        reports.setdefault('asan:%s:%s:%s' % (asan_kind, m.group(2), m.group(3)), fn)
+                        asan_kind = None
+            if asan_kind:
+                reports.setdefault('asan:%s:?' % asan_kind, fn)
     for sig, fn in reports.items():
         keep = os.path.join(ck.replay_dir, fn)
         import shutil
